@@ -1,4 +1,5 @@
 """C03 - the generated Python module exposes exactly the declared API (Engines F, E)."""
+from .. import rules_flow as RF
 from .. import rules_pybind as RP
 from .. import rules_alias as RA
 
@@ -36,3 +37,4 @@ def run(ctx, rep):
     rep.run(RP.rule_keyword_escaping, ctx, rep, "A6")
     # A8: the emitter's configuration (keyword list, ignore list, ...) is never modified while wrapping
     rep.run(RA.rule_mutate_only_fresh, ctx, rep, "A8", "gtwrap/pybind_wrapper", {}, min_sites=3)
+    rep.run(RF.rule_locals_defined, ctx, rep, "U1", packages=("gtwrap/pybind_wrapper.py",), min_functions=3)
